@@ -466,10 +466,10 @@ def r4_order(program, folder, rep):
 def check(program, rep):
     program.module(MOD)
     folder = Folder(program)
-    bitname = r1_layout(program, folder, rep)
-    r2_index(program, rep, bitname)
-    r3_collapse(program, folder, rep)
-    r4_order(program, folder, rep)
+    bitname = rep.guard("C12-R1", r1_layout, program, folder, rep)
+    rep.guard("C12-R2", r2_index, program, rep, bitname)
+    rep.guard("C12-R3", r3_collapse, program, folder, rep)
+    rep.guard("C12-R4", r4_order, program, folder, rep)
     rep.floor("C12-R1", 8)
     rep.floor("C12-R2", 7)
     return finish(rep, program, EXPLANATION, NOT_DECIDED,
